@@ -65,6 +65,8 @@ type Contract struct {
 	Nonblock  bool
 	Unchecked []string // obligation kinds not generated for this function (documented assumption)
 	Lemmas    []string // opt-in lemma families (bvarith)
+	Fresh     []string // components written only in objects allocated during the call
+	LoopFresh map[int][]string
 	Appends   []string // ghost logs that receive exactly one entry per call (trusted primitives only)
 }
 
@@ -110,7 +112,7 @@ func (cs *ContractSet) parseContractText(file string, lines []string, lineNos []
 		word, rest := splitWord(l)
 		switch word {
 		case "func":
-			cur = &Contract{Decl: l, Ext: ext, Trusted: ext, Src: src, LoopMods: map[int][]string{}, Calls: map[string]map[string]string{}}
+			cur = &Contract{Decl: l, Ext: ext, Trusted: ext, Src: src, LoopMods: map[int][]string{}, Calls: map[string]map[string]string{}, LoopFresh: map[int][]string{}}
 			cs.order = append(cs.order, cur)
 			lastClause = nil
 		case "guarded":
@@ -132,7 +134,7 @@ func (cs *ContractSet) parseContractText(file string, lines []string, lineNos []
 			cs.imports[a] = p
 		case "constglobal":
 			cs.consts[strings.TrimSpace(rest)] = true
-		case "mode", "logical", "requires", "ensures", "loop", "inline", "noinline", "trusted", "pure", "modifies", "noreturn", "assume", "call", "mayblock", "nonblocking", "unchecked", "appends", "lemmas":
+		case "mode", "logical", "requires", "ensures", "loop", "inline", "noinline", "trusted", "pure", "modifies", "noreturn", "assume", "call", "mayblock", "nonblocking", "unchecked", "appends", "lemmas", "freshwrites":
 			if cur == nil {
 				cs.errs = append(cs.errs, src+": clause outside func block")
 				continue
@@ -154,6 +156,10 @@ func (cs *ContractSet) parseContractText(file string, lines []string, lineNos []
 				cur.MayBlock = true
 			case "nonblocking":
 				cur.Nonblock = true
+			case "freshwrites":
+				for _, k := range strings.Split(rest, ",") {
+					cur.Fresh = append(cur.Fresh, strings.TrimSpace(k))
+				}
 			case "lemmas":
 				for _, k := range strings.Split(rest, ",") {
 					cur.Lemmas = append(cur.Lemmas, strings.TrimSpace(k))
@@ -218,6 +224,10 @@ func (cs *ContractSet) parseContractText(file string, lines []string, lineNos []
 					c.Label, c.Text = splitLabel(r3)
 					cur.Invs = append(cur.Invs, c)
 					lastClause = c
+				case "freshwrites":
+					for _, k := range strings.Split(r3, ",") {
+						cur.LoopFresh[n] = append(cur.LoopFresh[n], strings.TrimSpace(k))
+					}
 				default:
 					cs.errs = append(cs.errs, src+": unknown loop clause "+w2)
 				}
